@@ -51,8 +51,8 @@ CLAIMS = {
    technique="Coq proof + translator bridge + differential correspondence with git as reference parser"),
 
  "C11": dict(
-   text="Theorems on the model of sizes/output.go: C11_row_visible / C11_hidden_iff (a row is emitted iff saturated or alert >= threshold), C11_marker (int(alert) stars, 30 '!' above 30 or saturated), C11_monotone (raising the threshold only hides rows, markers unchanged), C11_verbose (threshold <= 0 shows every metric; uses non-negativity of the binary64 model), C11_empty, C11_saturated; C11_real_ratio_refuted: over the REAL ratio value/reference the visibility clause fails within one ulp of the threshold (known finding). C11_contents_generated (tie T): gen/ContentsGen.v, regenerated on every run from the literal of HistorySize.contents() in sizes/output.go and the field widths in sizes/sizes.go, is proved equal to Output.contents (sections, order, symbols, names, value field and width, cited path field, humaner, unit, exact reference value), so the table theorems speak about the layout the Go source declares. C11_every_field_once: each of the 22 quantities and 12 path slots is shown by exactly one item. Every table is also judged on exact rationals (row count = metrics with value/reference >= threshold or saturated, outside a 2^-50 band). Tie: TableString/JSON on synthetic vectors at k*ref-1, k*ref, k*ref+1, caps and zero x 18 thresholds: exact table bytes and exact levelOfConcern vs the model, JSON v2 value = v1 value, sub-sequence check across thresholds.",
-   note="Trusted: Coq kernel, extraction, harness; float64(uint64), binary64 division, ParseFloat and fmt padding are modelled as correctly rounded / documented (Float64.v), validated by exact comparison on every run. Lifting of C11_monotone from items to whole tables (headers, blank rows) is checked by the sub-sequence test, not proved.",
+   text="Theorems on the model of sizes/output.go: C11_row_visible / C11_hidden_iff (a row is emitted iff saturated or alert >= threshold), C11_marker (int(alert) stars, 30 '!' above 30 or saturated), C11_monotone (raising the threshold only hides rows, markers unchanged), C11_verbose (threshold <= 0 shows every metric; uses non-negativity of the binary64 model), C11_empty, C11_saturated; C11_real_ratio_refuted: over the REAL ratio value/reference the visibility clause fails within one ulp of the threshold (known finding). C11_contents_generated (tie T): gen/ContentsGen.v, regenerated on every run from the literal of HistorySize.contents() in sizes/output.go and the field widths in sizes/sizes.go, is proved equal to Output.contents (sections, order, symbols, names, value field and width, cited path field, humaner, unit, exact reference value), so the table theorems speak about the layout the Go source declares. C11_every_field_once: each of the 22 quantities and 12 path slots is shown by exactly one item. Whole tables (TableProofs.v): C11_no_problems_iff (the report is the single 'No problems' line IFF no item qualifies), C11_section_empty_iff (a section, header included, emits nothing iff none of its items is shown, at any depth), C11_table_monotone / C11_table_marker (the items shown at a higher threshold are a subsequence of those shown at a lower one, each with its marker unchanged), C11_no_problems_monotone, C11_verbose_report_complete (for the real layout and non-negative measurements, threshold <= 0 shows all 22 quantities and every refgroup count), C11_table_example (non-vacuity). Tie T for the decision itself: C11_level_generated / C11_level_never_panics — gen/LevelGen.v (the statement list of the Go method levelOfConcern, regenerated every run) interpreted under the Go meaning of its constructs equals Output.level_of_concern, and its slice stars[:int(alert)] is always in bounds. Every table is also judged on exact rationals (row count = metrics with value/reference >= threshold or saturated, outside a 2^-50 band). Tie: TableString/JSON on synthetic vectors at k*ref-1, k*ref, k*ref+1, caps and zero x 18 thresholds: exact table bytes and exact levelOfConcern vs the model, JSON v2 value = v1 value, sub-sequence check across thresholds.",
+   note="Trusted: Coq kernel, extraction, harness; float64(uint64), binary64 division, ParseFloat and fmt padding are modelled as correctly rounded / documented (Float64.v), validated by exact comparison on every run. The byte-level layout of rows between the items (headers, blank rows, citation numbers) under a changing threshold is checked by the sub-sequence test; which items are shown, and that sections vanish exactly when empty, is proved.",
    technique="Coq proof on executable model + differential correspondence on boundary vectors"),
  "C19": dict(
    text="Theorem C19_footnotes: for every sequence of citation requests (arbitrary bytes) the footnotes are the distinct non-empty texts in order of first citation and every citation is [k] with k the position of its text (so equal texts share a number, numbering is 1..k, every footnote is cited). Tie: CLI runs (fakegit + real git) on names with spaces, quotes, backslashes, control and non-UTF-8 bytes, 300-byte names: JSON parsed and key sets compared with a plain-name twin; tables parsed for citation/footnote consistency.",
